@@ -1,5 +1,652 @@
 package mw
 
-import "verif/harness/simkit"
+import (
+	"bytes"
+	"compress/gzip"
+	"context"
+	"errors"
+	"fmt"
+	"io"
+	"net/http"
+	"net/url"
+	"os"
+	"path/filepath"
+	"strings"
+	"sync"
+	"time"
 
-func runC47(x *simkit.Exec) { x.Troublef("not implemented") }
+	"github.com/go-kit/log"
+
+	"github.com/thanos-io/thanos/pkg/reloader"
+
+	"verif/harness/simkit"
+)
+
+// ---- C47: the config reloader applies the latest configuration -----------------------------------
+//
+// Stubbed: Reloader.Watch (fsnotify + debounce). The world plays Watch's loop (c47WatchLoop, a
+// line-by-line mirror) around the real apply(), with "a file-system notification is pending" as a
+// one-slot channel. Prometheus is a simulated http.RoundTripper.
+
+const (
+	c47VarA = "VERIF_C47_A"
+	c47VarB = "VERIF_C47_B"
+	c47VarU = "VERIF_C47_U"
+)
+
+// c47Expand is the reference for the documented substitution: references of the form $(VAR) with VAR
+// made of letters, digits and underscores are replaced by the value; with tolerate an unset variable
+// is left as written, otherwise it is an error (ok=false).
+func c47Expand(in string, env map[string]string, tolerate bool) (string, bool) {
+	var sb strings.Builder
+	ok := true
+	for i := 0; i < len(in); {
+		if in[i] == '$' && i+1 < len(in) && in[i+1] == '(' {
+			j := i + 2
+			for j < len(in) && (in[j] == '_' || in[j] >= '0' && in[j] <= '9' || in[j] >= 'a' && in[j] <= 'z' || in[j] >= 'A' && in[j] <= 'Z') {
+				j++
+			}
+			if j > i+2 && j < len(in) && in[j] == ')' {
+				name := in[i+2 : j]
+				if v, set := env[name]; set {
+					sb.WriteString(v)
+				} else {
+					if !tolerate {
+						ok = false
+					}
+					sb.WriteString(in[i : j+1])
+				}
+				i = j + 1
+				continue
+			}
+		}
+		sb.WriteByte(in[i])
+		i++
+	}
+	return sb.String(), ok
+}
+
+type c47File struct {
+	text   string // logical (uncompressed) content
+	gz     bool
+	bytes  []byte // what is written to disk
+	broken bool   // references the variable that is never set
+}
+
+var (
+	c47GzMu sync.Mutex
+	c47Gz   *gzip.Writer // reused: a fresh writer allocates more than half a megabyte
+)
+
+func c47NewFile(text string, gz bool) c47File {
+	f := c47File{text: text, gz: gz, bytes: []byte(text), broken: strings.Contains(text, "$("+c47VarU+")")}
+	if gz {
+		var b bytes.Buffer
+		c47GzMu.Lock()
+		if c47Gz == nil {
+			c47Gz = gzip.NewWriter(&b)
+		} else {
+			c47Gz.Reset(&b)
+		}
+		_, _ = c47Gz.Write([]byte(text))
+		_ = c47Gz.Close()
+		c47GzMu.Unlock()
+		f.bytes = b.Bytes()
+	}
+	return f
+}
+
+func (f c47File) raw() []byte { return f.bytes }
+
+type c47Op struct {
+	kind   string // edit add remove touch setenv
+	file   string // relative input path
+	f      c47File
+	name   string
+	value  string
+	notify bool
+}
+
+type c47Snapshot struct {
+	version, envVersion int
+	inputs              map[string]string // relative path -> raw bytes, only files the reloader takes into account
+}
+
+type c47World struct {
+	mu         sync.Mutex
+	root       string
+	tolerate   bool
+	cfgFile    string // relative, "" if none
+	cfgOut     string
+	cfgDirs    [][2]string // {dir, outdir} relative
+	watched    []string
+	files      map[string]c47File // every input file (relative path)
+	env        map[string]string
+	version    int
+	envVersion int
+	cur        c47Snapshot
+	lastOK     *c47Snapshot
+	pending    bool // a reload attempt failed since the last success
+	requests   int
+	okReloads  int
+	applies    int
+	failedApps int
+	spurious   string
+}
+
+// relevant reports whether the reloader takes the input file into account.
+func (w *c47World) relevant(rel string) bool {
+	if rel == w.cfgFile {
+		return true
+	}
+	for _, d := range w.cfgDirs {
+		if filepath.Dir(rel) == d[0] { // sub-directories of config directories are ignored
+			return true
+		}
+	}
+	for _, d := range w.watched {
+		if strings.HasPrefix(rel, d+"/") {
+			return true
+		}
+	}
+	return false
+}
+
+func (w *c47World) snapshot() c47Snapshot {
+	s := c47Snapshot{version: w.version, envVersion: w.envVersion, inputs: map[string]string{}}
+	for rel, f := range w.files {
+		if w.relevant(rel) {
+			s.inputs[rel] = string(f.raw())
+		}
+	}
+	return s
+}
+
+func c47SameInputs(a, b map[string]string) (bool, string) {
+	for _, k := range simkit.SortedKeys(a) {
+		if v, ok := b[k]; !ok {
+			return false, k + " (only in one)"
+		} else if v != a[k] {
+			return false, k + " (content differs)"
+		}
+	}
+	for _, k := range simkit.SortedKeys(b) {
+		if _, ok := a[k]; !ok {
+			return false, k + " (only in one)"
+		}
+	}
+	return true, ""
+}
+
+type c47Prom struct {
+	s *simkit.Sim
+	w *c47World
+}
+
+func (p *c47Prom) RoundTrip(req *http.Request) (*http.Response, error) {
+	w := p.w
+	id := p.s.OpID("prometheus", "reload")
+	w.mu.Lock()
+	w.requests++
+	n := w.requests
+	legit := w.lastOK == nil || w.pending || w.cur.version != w.lastOK.version || w.cur.envVersion != w.lastOK.envVersion
+	if !legit && w.spurious == "" {
+		w.spurious = fmt.Sprintf("reload request #%d during apply #%d: no watched content changed since the last successful reload (content version %d, last reloaded version %d), no reload attempt failed since, environment unchanged",
+			n, w.applies, w.cur.version, w.lastOK.version)
+	}
+	cur := w.cur
+	w.mu.Unlock()
+	fail := func(what string) {
+		w.mu.Lock()
+		w.pending = true
+		w.mu.Unlock()
+		p.s.Note("prometheus: reload request #%d -> %s", n, what)
+	}
+	if err := p.s.Park(req.Context(), id); err != nil {
+		fail("not delivered before the reloader's deadline")
+		return nil, err
+	}
+	switch {
+	case p.s.Fault("reload:hang", id):
+		<-req.Context().Done()
+		fail("hangs until the reloader's deadline")
+		return nil, req.Context().Err()
+	case p.s.Fault("reload:5xx", id):
+		fail("503")
+		return &http.Response{StatusCode: 503, Status: "503 Service Unavailable", Body: io.NopCloser(strings.NewReader("")), Header: http.Header{}, Request: req}, nil
+	case p.s.Fault("reload:neterr", id):
+		fail("connection refused")
+		return nil, errors.New("dial tcp: connection refused (simulated)")
+	}
+	w.mu.Lock()
+	w.pending = false
+	w.lastOK = &cur
+	w.okReloads++
+	w.mu.Unlock()
+	p.s.Note("prometheus: reload request #%d -> 200 (content version %d)", n, cur.version)
+	return &http.Response{StatusCode: 200, Status: "200 OK", Body: io.NopCloser(strings.NewReader("")), Header: http.Header{}, Request: req}, nil
+}
+
+func (w *c47World) writeFile(rel string, f c47File) error {
+	p := filepath.Join(w.root, rel)
+	if err := os.MkdirAll(filepath.Dir(p), 0o755); err != nil {
+		return err
+	}
+	return os.WriteFile(p, f.raw(), 0o644)
+}
+
+func (w *c47World) apply(s *simkit.Sim, r *reloader.Reloader, ctx context.Context, why string) error {
+	w.mu.Lock()
+	w.applies++
+	n := w.applies
+	w.cur = w.snapshot()
+	w.mu.Unlock()
+	err := r.VerifApply(ctx)
+	if err != nil {
+		w.mu.Lock()
+		w.failedApps++
+		w.mu.Unlock()
+	}
+	s.Note("reloader: apply #%d (%s) -> error=%v", n, why, err != nil)
+	return err
+}
+
+// c47WatchLoop mirrors Reloader.Watch: initial apply when a config file is set (an error ends Watch),
+// then apply on every notification or when the watch interval elapsed; the interval is re-armed
+// before each apply; apply errors are logged and ignored.
+func c47WatchLoop(ctx context.Context, s *simkit.Sim, w *c47World, r *reloader.Reloader, notify <-chan struct{}, watchInterval time.Duration) error {
+	if w.cfgFile != "" {
+		initialSyncCtx, initialSyncCancel := context.WithTimeout(ctx, watchInterval)
+		err := w.apply(s, r, initialSyncCtx, "initial")
+		initialSyncCancel()
+		if err != nil {
+			return err
+		}
+	}
+	applyCtx, applyCancel := context.WithTimeout(ctx, watchInterval)
+	for {
+		why := "notification"
+		select {
+		case <-applyCtx.Done():
+			if ctx.Err() != nil {
+				applyCancel()
+				return nil
+			}
+			why = "interval"
+		case <-notify:
+		}
+		applyCancel()
+		applyCtx, applyCancel = context.WithTimeout(ctx, watchInterval)
+		if err := w.apply(s, r, applyCtx, why); err != nil {
+			continue
+		}
+	}
+}
+
+func runC47(x *simkit.Exec) {
+	w := &c47World{root: filepath.Join(x.TempDir(), "c47"), files: map[string]c47File{}, env: map[string]string{}}
+	w.tolerate = x.Bool("tolerate", 1, 2)
+	layout := x.Draw("layout", 6)
+	// 0 cfg+out, 1 cfg+out+dir, 2 dir only, 3 cfg (no out)+watched, 4 two dirs+watched, 5 cfg+out+dir+watched
+	if layout == 0 || layout == 1 || layout == 3 || layout == 5 {
+		w.cfgFile = "cfg/prometheus.yml"
+		if layout != 3 {
+			w.cfgOut = "cfgout/prometheus.yml"
+		}
+	}
+	nDirs := map[int]int{1: 1, 2: 1, 4: 2, 5: 1}[layout]
+	for d := 0; d < nDirs; d++ {
+		w.cfgDirs = append(w.cfgDirs, [2]string{fmt.Sprintf("rules%d", d), fmt.Sprintf("rulesout%d", d)})
+	}
+	if layout >= 3 {
+		w.watched = []string{"watched"}
+	}
+	// candidate input files
+	var cands []string
+	for _, d := range w.cfgDirs {
+		for i := 0; i < 4; i++ {
+			cands = append(cands, fmt.Sprintf("%s/r%d.yaml", d[0], i))
+		}
+		cands = append(cands, d[0]+"/sub/ignored.yaml")
+	}
+	for _, d := range w.watched {
+		cands = append(cands, d+"/w0.yaml", d+"/w1.yaml", d+"/nested/w2.yaml")
+	}
+	// VERIF_C47_U is either set for the whole run or never (a reference to it is then a mistake in the
+	// configuration: tolerated as written, or an apply error until the file is corrected).
+	uSet := x.Bool("u-set", 1, 2)
+	invalidPossible := !uSet && !w.tolerate
+	serial := 0
+	newContent := func(valid bool) c47File {
+		serial++
+		k := serial
+		n := 5
+		if valid && invalidPossible {
+			n = 4
+		}
+		tmpl := []string{
+			"global:\n  external_labels:\n    replica: '$(%[1]s)'\n# v%[3]d\n",
+			"a: $(%[1]s)-$(%[2]s)$(%[1]s) b: ${%[1]s} $%[2]s $( $() v%[3]d",
+			"v%[3]d",
+			"#%[3]d\n$(%[2]s)",
+			"u: $(VERIF_C47_U) and $(%[2]s)\n# v%[3]d",
+		}[x.Draw("template", n)]
+		return c47NewFile(fmt.Sprintf(tmpl, c47VarA, c47VarB, k), x.Bool("gz", 1, 5))
+	}
+	// initial state: valid (Watch ends with an error when the initial apply fails)
+	w.env[c47VarA], w.env[c47VarB] = "alpha", "b-0"
+	if uSet {
+		w.env[c47VarU] = "u0"
+	}
+	if w.cfgFile != "" {
+		w.files[w.cfgFile] = newContent(true)
+	}
+	for _, c := range cands {
+		if x.Bool("present", 1, 2) {
+			w.files[c] = newContent(true)
+		}
+	}
+	// history
+	nOps := x.Range("ops", 2, 12)
+	var ops []c47Op
+	present := map[string]bool{}
+	for f := range w.files {
+		present[f] = true
+	}
+	envSerial := 0
+	for i := 0; i < nOps; i++ {
+		op := c47Op{notify: !x.Bool("lost-notification", 1, 4)}
+		if x.Bool("envop", 1, 6) {
+			envSerial++
+			if x.Draw("envkind", 2) == 0 {
+				op.kind, op.name, op.value = "setenv", c47VarA, fmt.Sprintf("alpha%d", envSerial)
+			} else {
+				op.kind, op.name, op.value = "setenv", c47VarB, fmt.Sprintf("b-%d $(%s)", envSerial, c47VarA) // values are not expanded again
+			}
+			ops = append(ops, op)
+			continue
+		}
+		all := cands
+		if w.cfgFile != "" {
+			all = append([]string{w.cfgFile}, cands...)
+		}
+		op.file = all[x.Draw("file", len(all))]
+		switch {
+		case !present[op.file]:
+			op.kind, op.f = "add", newContent(false)
+			present[op.file] = true
+		case op.file != w.cfgFile && x.Bool("remove", 1, 3):
+			op.kind = "remove"
+			present[op.file] = false
+		case x.Bool("touch", 1, 5):
+			op.kind = "touch"
+		default:
+			op.kind, op.f = "edit", newContent(false)
+		}
+		ops = append(ops, op)
+	}
+	// the history ends with the correction of every file that references the unset variable
+	if invalidPossible {
+		state := map[string]c47File{}
+		for f, c := range w.files {
+			state[f] = c
+		}
+		for _, op := range ops {
+			switch op.kind {
+			case "add", "edit":
+				state[op.file] = op.f
+			case "remove":
+				delete(state, op.file)
+			}
+		}
+		for _, f := range simkit.SortedKeys(state) {
+			if state[f].broken && w.relevant(f) {
+				ops = append(ops, c47Op{kind: "edit", file: f, f: newContent(true), notify: true})
+			}
+		}
+	}
+	faultsOn := x.Bool("faults", 1, 2)
+	watchInterval, retryInterval := 10*time.Second, 3*time.Second
+	x.Sample = map[string]any{"layout": layout, "cfg_file": w.cfgFile != "", "cfg_output": w.cfgOut != "", "cfg_dirs": len(w.cfgDirs), "watched_dirs": len(w.watched),
+		"initial_files": len(w.files), "history_ops": len(ops), "faults": faultsOn, "tolerate_unset": w.tolerate, "unset_variable_referenced_possible": !uSet}
+
+	// real files and environment
+	for _, d := range w.cfgDirs {
+		_ = os.MkdirAll(filepath.Join(w.root, d[0]), 0o755)
+		_ = os.MkdirAll(filepath.Join(w.root, d[1]), 0o755)
+	}
+	for _, d := range w.watched {
+		_ = os.MkdirAll(filepath.Join(w.root, d), 0o755)
+	}
+	if w.cfgOut != "" {
+		_ = os.MkdirAll(filepath.Join(w.root, filepath.Dir(w.cfgOut)), 0o755)
+	}
+	for rel, f := range w.files {
+		if err := w.writeFile(rel, f); err != nil {
+			x.Troublef("c47 set-up: %v", err)
+			return
+		}
+	}
+	for k, v := range w.env {
+		os.Setenv(k, v)
+	}
+	defer func() {
+		for _, k := range []string{c47VarA, c47VarB, c47VarU} {
+			os.Unsetenv(k)
+		}
+	}()
+
+	var watchErr error
+	x.Bubble("c47", func(s *simkit.Sim) {
+		ctx, cancel := context.WithCancel(context.Background())
+		defer cancel()
+		if faultsOn {
+			s.PlanRates([]string{"reload:5xx", "reload:hang", "reload:neterr"}, []int{0, 250, 600})
+		}
+		s.Delays = []time.Duration{retryInterval, watchInterval}
+		opts := &reloader.Options{
+			ReloadURL:                     &url.URL{Scheme: "http", Host: "prometheus.sim:9090", Path: "/-/reload"},
+			HTTPClient:                    http.Client{Transport: &c47Prom{s: s, w: w}},
+			WatchInterval:                 watchInterval,
+			RetryInterval:                 retryInterval,
+			DelayInterval:                 time.Second,
+			TolerateEnvVarExpansionErrors: w.tolerate,
+			WatchedDirs:                   nil,
+		}
+		if w.cfgFile != "" {
+			opts.CfgFile = filepath.Join(w.root, w.cfgFile)
+		}
+		if w.cfgOut != "" {
+			opts.CfgOutputFile = filepath.Join(w.root, w.cfgOut)
+		}
+		for _, d := range w.cfgDirs {
+			opts.CfgDirs = append(opts.CfgDirs, reloader.CfgDirOption{Dir: filepath.Join(w.root, d[0]), OutputDir: filepath.Join(w.root, d[1])})
+		}
+		for _, d := range w.watched {
+			opts.WatchedDirs = append(opts.WatchedDirs, filepath.Join(w.root, d))
+		}
+		r := reloader.New(log.NewNopLogger(), nil, opts)
+		notify := make(chan struct{}, 1)
+
+		s.Go("reloader", func() {
+			watchErr = c47WatchLoop(ctx, s, w, r, notify, watchInterval)
+		})
+		s.Go("editor", func() {
+			defer cancel()
+			changed := func(op *c47Op) {
+				if w.relevant(op.file) {
+					w.version++
+				}
+			}
+			for i := range ops {
+				op := &ops[i]
+				if s.Park(ctx, s.OpID("editor", "next")) != nil {
+					return
+				}
+				w.mu.Lock()
+				var err error
+				switch op.kind {
+				case "add", "edit":
+					w.files[op.file] = op.f
+					err = w.writeFile(op.file, op.f)
+					changed(op)
+					s.Note("editor: %s %s gz=%v %q", op.kind, op.file, op.f.gz, op.f.text)
+				case "touch":
+					err = w.writeFile(op.file, w.files[op.file])
+					s.Note("editor: rewrite %s with the same bytes", op.file)
+				case "remove":
+					delete(w.files, op.file)
+					err = os.Remove(filepath.Join(w.root, op.file))
+					changed(op)
+					s.Note("editor: remove %s", op.file)
+				case "setenv":
+					w.env[op.name] = op.value
+					w.envVersion++
+					os.Setenv(op.name, op.value)
+					s.Note("editor: setenv %s=%q", op.name, op.value)
+				}
+				w.mu.Unlock()
+				if err != nil {
+					x.Troublef("c47 editor: %v", err)
+					return
+				}
+				if op.notify && op.file != "" {
+					select {
+					case notify <- struct{}{}:
+					default:
+					}
+				}
+			}
+			// edits stop; reload failures stop
+			if s.Park(ctx, s.OpID("editor", "quiesce")) != nil {
+				return
+			}
+			s.FaultsOff = true
+			s.Delays = nil
+			s.Note("editor: quiet phase starts")
+			time.Sleep(3*watchInterval + time.Second)
+		})
+		s.Loop()
+		if s.Stuck() {
+			x.Troublef("c47: scheduler stuck, parked=%v", s.ParkedIDs())
+		}
+	})
+	if len(x.Trouble) > 0 {
+		return
+	}
+	if watchErr != nil {
+		x.Troublef("c47: the initial apply failed on a valid initial configuration: %v", watchErr)
+		return
+	}
+	x.ProbeN("c47.applies", w.applies)
+	x.ProbeN("c47.reload_requests", w.requests)
+	x.ProbeN("c47.reloads_ok", w.okReloads)
+	x.Nontrivial = w.okReloads > 0 && w.applies > 1
+
+	history := func() string {
+		var sb strings.Builder
+		fmt.Fprintf(&sb, "layout: cfgFile=%q cfgOutputFile=%q cfgDirs=%v watchedDirs=%v tolerate=%v\nhistory:\n", w.cfgFile, w.cfgOut, w.cfgDirs, w.watched, w.tolerate)
+		for _, op := range ops {
+			switch op.kind {
+			case "setenv":
+				fmt.Fprintf(&sb, "  %s %s %q\n", op.kind, op.name, op.value)
+			default:
+				fmt.Fprintf(&sb, "  %s %s gz=%v %q notify=%v\n", op.kind, op.file, op.f.gz, op.f.text, op.notify)
+			}
+		}
+		fmt.Fprintf(&sb, "applies=%d (returned an error: %d) reload requests=%d successful=%d\n(see the replay trace for the interleaving)", w.applies, w.failedApps, w.requests, w.okReloads)
+		return sb.String()
+	}
+	layoutSig := fmt.Sprintf("cfg=%v,out=%v,dirs=%d,watched=%d", w.cfgFile != "", w.cfgOut != "", len(w.cfgDirs), len(w.watched))
+
+	if w.spurious != "" {
+		x.Violate("no-reload-without-change", "reload-without-change:"+layoutSig, "%s\n%s", w.spurious, history())
+	}
+	// outputs equal inputs with variables substituted; outputs of removed inputs are gone
+	expect := map[string]string{} // relative output path -> expected content
+	for rel, f := range w.files {
+		var out string
+		switch {
+		case rel == w.cfgFile && w.cfgOut != "":
+			out = w.cfgOut
+		case rel == w.cfgFile:
+			continue
+		default:
+			for _, d := range w.cfgDirs {
+				if filepath.Dir(rel) == d[0] {
+					out = filepath.Join(d[1], filepath.Base(rel))
+				}
+			}
+		}
+		if out == "" {
+			continue
+		}
+		e, ok := c47Expand(f.text, w.env, w.tolerate)
+		if !ok {
+			x.Troublef("c47: final configuration references an unset variable (harness bug)")
+			return
+		}
+		expect[out] = e
+	}
+	outDirs := []string{}
+	if w.cfgOut != "" {
+		outDirs = append(outDirs, filepath.Dir(w.cfgOut))
+	}
+	for _, d := range w.cfgDirs {
+		outDirs = append(outDirs, d[1])
+	}
+	got := map[string]string{}
+	for _, d := range outDirs {
+		ents, err := os.ReadDir(filepath.Join(w.root, d))
+		if err != nil {
+			x.Troublef("c47: read output dir: %v", err)
+			return
+		}
+		for _, e := range ents {
+			b, err := os.ReadFile(filepath.Join(w.root, d, e.Name()))
+			if err != nil {
+				x.Troublef("c47: read output: %v", err)
+				return
+			}
+			got[filepath.Join(d, e.Name())] = string(b)
+		}
+	}
+	failedSig := "no-apply-failed"
+	if w.failedApps > 0 {
+		failedSig = "after-apply-that-failed-partway"
+		x.Probe("c47.apply_errors_seen")
+	}
+	kindOf := func(rel string) string {
+		if rel == w.cfgOut {
+			return "cfg-output-file"
+		}
+		return "cfg-dir-output"
+	}
+	for _, out := range simkit.SortedKeys(expect) {
+		g, ok := got[out]
+		if !ok {
+			x.Violate("outputs-equal-substituted-inputs", "output-missing:"+kindOf(out), "output %s does not exist after the configuration stopped changing\n%s", out, history())
+		} else if g != expect[out] {
+			x.Violate("outputs-equal-substituted-inputs", "output-differs:"+kindOf(out), "output %s is %q, expected %q (environment %v)\n%s", out, g, expect[out], w.env, history())
+		}
+	}
+	for _, out := range simkit.SortedKeys(got) {
+		if _, ok := expect[out]; !ok {
+			x.Violate("stale-outputs-removed", "stale-output:"+kindOf(out)+":"+failedSig, "output %s exists but no input corresponds to it (content %q)\n%s", out, got[out], history())
+		}
+	}
+	// the last successful reload covers the final content
+	final := w.snapshot()
+	switch {
+	case w.lastOK == nil:
+		x.Violate("reload-after-change", "never-reloaded:"+layoutSig, "no reload succeeded although reload failures stopped and 3 watch intervals passed\n%s", history())
+	case w.lastOK.envVersion != final.envVersion:
+		x.Probe("c47.final_reload_check_skipped_env_changed")
+	default:
+		if same, diff := c47SameInputs(w.lastOK.inputs, final.inputs); !same {
+			x.Violate("reload-after-change", "stale-after-change:"+layoutSig, "the last successful reload was triggered for content version %d; the final content (version %d) differs in %s and no reload followed within 3 watch intervals without failures (a failed attempt was pending: %v)\n%s",
+				w.lastOK.version, final.version, diff, w.pending, history())
+		}
+	}
+}
+
